@@ -4,7 +4,8 @@
 # check(s) against it. Prints a summary; never touches /repo.
 set -u
 ID=$1; shift
-CHECKS="$ID $*"
+CHECKS="$*"
+[ -z "$CHECKS" ] && CHECKS=$(echo $ID | sed 's/[a-z]*$//')
 export GOFLAGS=-mod=mod GOPROXY=off GOSUMDB=off GOTOOLCHAIN=local GODEBUG=goindex=0
 SRC=/tmp/seeded-out/$ID
 WT=/tmp/sv-$ID
@@ -14,8 +15,23 @@ git -C /repo worktree add --detach $WT HEAD -q || exit 2
 cd $WT
 DEMO=$(python3 -c "import json;print(json.load(open('$SRC/meta.json'))['demo_path_in_repo'])")
 CMD=$(python3 -c "import json;print(json.load(open('$SRC/meta.json'))['demo_cmd'])")
-mkdir -p $(dirname $DEMO)
-if [ -d $SRC/demo ]; then for f in $SRC/demo/*; do if [ -d "$DEMO" ] || [[ "$DEMO" == */ ]]; then mkdir -p $DEMO; cp -r $f $DEMO/; else cp $f $(dirname $DEMO)/; fi; done; fi
+python3 - "$SRC" "$WT" "$DEMO" <<'PY'
+import os,sys,shutil
+src,wt,demo=sys.argv[1:4]
+demo=demo.split()[0].strip('(),')
+d=os.path.join(src,'demo')
+for root,_,files in os.walk(d):
+    for f in files:
+        rel=os.path.relpath(os.path.join(root,f),d)
+        if os.sep in rel:
+            dst=os.path.join(wt,rel)
+        elif demo.endswith('.go'):
+            dst=os.path.join(wt,os.path.dirname(demo),f)
+        else:
+            dst=os.path.join(wt,demo,f)
+        os.makedirs(os.path.dirname(dst),exist_ok=True)
+        shutil.copy(os.path.join(root,f),dst)
+PY
 echo "== demo WITHOUT change: $CMD"
 ( timeout 1200 bash -c "$CMD" ) > /tmp/sv-$ID.without.log 2>&1; W=$?
 echo "exit=$W"
